@@ -434,7 +434,10 @@ def rule_N4(F, R):
         R.violation("N4", mk["owner_fn"], "make-shape", "make_snapshot does not encode all_tasks()", where(mk))
     else:
         s = mf.slice_operand(enc[0][1]["args"][0], stop=lambda t: any(n.endswith("::all_tasks") for n in call_names(t)))
-        if any(r[0] == "call" and r[1] == at[0][0] for r in s.roots):
+        cut = sorted({x.split("::")[-1] for x in s.call_names() if re.search(r"Iterator::(filter|filter_map|take|skip|take_while|skip_while|map_while|step_by)$|::(retain|truncate|drain|split_off|pop|remove|dedup\w*)$", x)})
+        if any(r[0] == "call" and r[1] == at[0][0] for r in s.roots) and (s.predicates or cut):
+            R.violation("N4", mk["owner_fn"], "make-selection", "make_snapshot passes all_tasks() through %s before encoding: the snapshot leaves tasks out (a task without properties is still a task: a replica started from the snapshot never learns of it, and every later update of it is ignored there)" % ((cut or ["a filter"])[0]), where(mk, enc[0][0]))
+        elif any(r[0] == "call" and r[1] == at[0][0] for r in s.roots):
             R.ok("N4", "make_snapshot encodes exactly all_tasks()", where(mk, enc[0][0]))
         else:
             R.violation("N4", mk["owner_fn"], "make-source", "the encoded snapshot does not derive from all_tasks()", where(mk, enc[0][0]))
